@@ -96,6 +96,18 @@ def gen_c13(engine):
             nb = rng.choice((M - 1, M, M + 1, M + 5, 2 * M + 3))
             ops.append({"op": "send_events", "events": [{"type": "B", "tag": 100 + i} for i in range(max(1, nb))]})
             ops.append({"op": "send", "event": "PROBE", "tag": 4})
+        # many SEPARATE short chains on one interpreter: every one of them has its own bound ("chains shorter than the bound
+        # run to their natural end"), however many have run before
+        nshort = 0
+        if rng.random() < 0.4:
+            logic["actions"]["tr.TSa"] = {"eff": []}
+            logic["actions"]["tr.TSb"] = {"eff": []}
+            cfg["on"]["S"] = {"actions": ["tr.TSa", {"type": "xstate.raise", "params": {"event": {"type": "S2"}}}]}
+            cfg["on"]["S2"] = {"actions": ["tr.TSb"]}
+            nshort = rng.choice((M, M + 2, 2 * M + 3))
+            for i in range(nshort):
+                ops.append({"op": "send", "event": {"type": "S", "tag": 5000 + i}})
+            ops.append({"op": "send", "event": "PROBE", "tag": 8})
         inflight = engine == "async" and rng.random() < 0.35
         if inflight:
             # "the bound never throttles or discards events sent from outside" also while a macrostep is IN FLIGHT:
@@ -119,7 +131,7 @@ def gen_c13(engine):
         sc = {"format": 1, "engine": engine, "seed": seed, "salt": seed % 997, "machine": cfg, "logic": logic, "children": {},
               "ops": ops, "sched": {"tie_seed": seed % 1009}, "line_monitor": True,
               "c13": {"template": template, "K": Kn, "M": M, "rel": rel, "trigger": trigger, "per_round": info["per_round"],
-                      "inflight": inflight}}
+                      "inflight": inflight, "short_chains": nshort}}
         n_ext = sum(len(o["events"]) if o.get("op") == "send_events" else 1 for o in ops)
         # budget: every external event may legitimately run a chain of up to ~2M rounds before it is cut
         sc["line_cap"] = 2500 * (2 * M + 60) * (n_ext + 2) + 150_000
@@ -188,6 +200,13 @@ def oracle_c13(sc, res):
                                       f"PROBE tags sent {sent}, received {tags}: the interpreter no longer answers"))
             elif sent and not answered:
                 vios.append(Violation("C13", "unresponsive-after-cut", dict(sig, cut_logged=cut_logged), "PROBE received but no PROBE transition ran"))
+            # separate short chains: each S raises one S2, and each S2 must be handled
+            if info.get("short_chains"):
+                n_s = sum(1 for r in res.trace if r[K] == "act" and r[5] == "tr.TSa")
+                n_s2 = sum(1 for r in res.trace if r[K] == "act" and r[5] == "tr.TSb")
+                if n_s2 < n_s:
+                    vios.append(Violation("C13", "short-chain-cut", dict(sig, cut_logged=cut_logged, separate_chains=True),
+                                          f"{n_s} separate one-step chains (maxIterations {M}) but only {n_s2} follow-up events were handled"))
             # external events sent one by one while a macrostep was in flight: every one processed
             singles = [op["event"]["tag"] for op in sc["ops"] if op.get("op") == "send" and isinstance(op.get("event"), dict)
                        and op["event"].get("type") == "B"]
@@ -213,5 +232,5 @@ def oracle_c13(sc, res):
 
 def stats_c13(sc, res):
     i = sc["c13"]
-    return {"tmpl_" + i["template"]: 1, "rel_" + i["rel"]: 1, "inflight_burst": int(bool(i.get("inflight"))), "repo_lines": int(res.meta.get("lines_total") or 0),
+    return {"tmpl_" + i["template"]: 1, "rel_" + i["rel"]: 1, "inflight_burst": int(bool(i.get("inflight"))), "separate_short_chains": int(bool(i.get("short_chains"))), "repo_lines": int(res.meta.get("lines_total") or 0),
             "max_lines_one_loop_iteration": 0, "aborted": 1 if res.meta.get("abort") else 0}
